@@ -372,9 +372,16 @@ LINES = ["AA   12 abcde   1.50\n", "BB  -34 x        2.25\n", "AA\n", "BB zzzz\n
 def vals_for(cls, rng):
     v = rng.choice(REG_VALS)
     if cls == "RC":
-        return v[:2]
+        v = v[:2]
+        if rng.random() < 0.15:
+            # a value the integer field cannot render: the write of THIS register raises inside the field
+            v = [{"s": codec.enc_str("oops")}, v[1]]
+        return v
     if cls == "RD":
-        return [v[1], v[0]]
+        v = [v[1], v[0]]
+        if rng.random() < 0.15:
+            v = [v[0], {"s": codec.enc_str("oops")}]
+        return v
     return v
 
 
